@@ -53,10 +53,25 @@
       TimerEnd there is still the expiry of a timer set by the rule
       ([C18_trace]); the failure is one of attribution within an instant, not
       a timer ending at a wrong time.
+    - [C18_live_gen]: the converse for EVERY run on a parsed trace (no
+      hypothesis on blocking), with the attribution-aware replay
+      [SimTimerLiveGen.treplay']: a reported TimerEnd at time t clears the
+      replayed timer only if the replayed expiry is t; a TimerEnd reported
+      while the replay holds another expiry is the end of the PREVIOUS timer
+      (it fired before a re-arm of that same instant) and leaves it. Then
+      (a), (a+) an UpdateTimer that sets or changes the timer is followed by a
+      TimerBegin at that instant (the one excluded corner: a zero-duration,
+      non-replacing update at an instant at which a TimerEnd of that machine
+      was already reported while the replay says not running); (b) a replayed
+      expiry that simulated time moves past is followed by a TimerEnd exactly
+      there, unless a timer action for that machine came first; (c) every
+      TimerEnd is attributed to an earlier UpdateTimer of that machine and
+      side with exactly that expiry, by a STRICTLY INCREASING assignment:
+      reported once per timer, in order.
     (Step level: [C18_begins] with [C18_not_past].) *)
 From MB Require Import Model.Framework Model.Sim.
 From MB Require Import Proofs.SimReach.
-From MB Require Proofs.SimBlocking Proofs.SimTimers Proofs.SimTrace Proofs.SimHistory Proofs.SimTimerTrace Proofs.SimTimerLive.
+From MB Require Proofs.SimBlocking Proofs.SimTimers Proofs.SimTrace Proofs.SimHistory Proofs.SimTimerTrace Proofs.SimTimerLive Proofs.SimTimerLiveGen.
 Import ListNotations SimTimers.
 Open Scope N_scope.
 
@@ -197,3 +212,51 @@ Proof.
   do 8 eexists. split; [exact A|]. split; [exact B|].
   split; [exact SimTimerLive.lvA_bypass|exact SimTimerLive.timers_live_counterexample].
 Qed.
+
+Theorem C18_live_gen : forall fuel cc sc tp tr delay pps args out,
+  SimHistory.full_args args ->
+  sim_advanced fuel cc sc tp (parse_trace tr delay) delay pps args = Ok out ->
+  exists H : list SimHistory.hrec, out = map SimHistory.h_ev H /\ SimTimerLiveGen.live_gen H.
+Proof. exact SimTimerLiveGen.timers_live_gen. Qed.
+Print Assumptions C18_live_gen.
+
+(** the four statements, pinned *)
+Lemma C18_live_gen_unfold : forall H, SimTimerLiveGen.live_gen H <->
+  (forall j rj m dur rp k' rk',
+     nth_error H j = Some rj -> In (TUpdateTimer m dur rp) (SimHistory.h_acts rj) ->
+     let X := se_client (SimHistory.h_ev rj) in let t := se_time (SimHistory.h_ev rj) in
+     (rp = true \/
+      (SimTimerLiveGen.treplay' X m H j = None /\ (0 < dur \/ ~ SimTimerLiveGen.stale_before H j X m t)) \/
+      (exists u, SimTimerLiveGen.treplay' X m H j = Some u /\ (u < t + Z.of_N dur)%Z)) ->
+     (j < k')%nat -> nth_error H k' = Some rk' -> (t < se_time (SimHistory.h_ev rk'))%Z ->
+     exists k rk, (j < k < k')%nat /\ nth_error H k = Some rk /\ se_ev (SimHistory.h_ev rk) = TETimerBegin m /\
+                  se_client (SimHistory.h_ev rk) = X /\ se_time (SimHistory.h_ev rk) = t) /\
+  (forall j rj m dur rp k' rk',
+     nth_error H j = Some rj -> In (TUpdateTimer m dur rp) (SimHistory.h_acts rj) ->
+     let X := se_client (SimHistory.h_ev rj) in let t := se_time (SimHistory.h_ev rj) in
+     let cur := SimTimerLiveGen.after_event' (se_ev (SimHistory.h_ev rj)) m t (SimTimerLiveGen.treplay' X m H j) in
+     (rp = true \/
+      (cur = None /\ (0 < dur \/ ~ SimTimerLiveGen.stale_before H (S j) X m t)) \/
+      (exists u, cur = Some u /\ (u < t + Z.of_N dur)%Z)) ->
+     (j < k')%nat -> nth_error H k' = Some rk' -> (t < se_time (SimHistory.h_ev rk'))%Z ->
+     exists k rk, (j < k < k')%nat /\ nth_error H k = Some rk /\ se_ev (SimHistory.h_ev rk) = TETimerBegin m /\
+                  se_client (SimHistory.h_ev rk) = X /\ se_time (SimHistory.h_ev rk) = t) /\
+  (forall j m e k' rk' X,
+     (j <= length H)%nat -> SimTimerLiveGen.treplay' X m H j = Some e ->
+     (j <= k')%nat -> nth_error H k' = Some rk' -> (e < se_time (SimHistory.h_ev rk'))%Z ->
+     (exists k rk, (j <= k < k')%nat /\ nth_error H k = Some rk /\ se_ev (SimHistory.h_ev rk) = TETimerEnd m /\
+                   se_client (SimHistory.h_ev rk) = X /\ se_time (SimHistory.h_ev rk) = e) \/
+     (exists j' rj' a', (j <= j' < k')%nat /\ nth_error H j' = Some rj' /\ se_client (SimHistory.h_ev rj') = X /\
+                   In a' (SimHistory.h_acts rj') /\ SimTimerTrace.is_timer_for m a' = true /\
+                   (se_time (SimHistory.h_ev rj') <= e)%Z)) /\
+  (forall X m, exists A : nat -> nat,
+     (forall k rk, nth_error H k = Some rk -> se_ev (SimHistory.h_ev rk) = TETimerEnd m ->
+        se_client (SimHistory.h_ev rk) = X ->
+        (A k < k)%nat /\
+        exists rj dur rp, nth_error H (A k) = Some rj /\ se_client (SimHistory.h_ev rj) = X /\
+          In (TUpdateTimer m dur rp) (SimHistory.h_acts rj) /\
+          se_time (SimHistory.h_ev rk) = (se_time (SimHistory.h_ev rj) + Z.of_N dur)%Z) /\
+     (forall k1 k2 r1 r2, (k1 < k2)%nat -> nth_error H k1 = Some r1 -> nth_error H k2 = Some r2 ->
+        se_ev (SimHistory.h_ev r1) = TETimerEnd m -> se_client (SimHistory.h_ev r1) = X ->
+        se_ev (SimHistory.h_ev r2) = TETimerEnd m -> se_client (SimHistory.h_ev r2) = X -> (A k1 < A k2)%nat)).
+Proof. intros H. reflexivity. Qed.
